@@ -1119,6 +1119,60 @@ func (w *vzWorld) finalChecks() {
 			w.orc.checkStoredHeadersIntact(nd)
 		}
 	}
+	if !w.cfg.oracles["C11"] || (w.endReason != "done" && w.endReason != "quiescent") || w.s.Failed() {
+		return
+	}
+	// inputs have stopped: ask each kernel for its own views and compare with what gossip last received
+	for _, nd := range w.nodes {
+		w.mu.Lock()
+		e, dead, down := nd.e, nd.dead, nd.down
+		w.mu.Unlock()
+		if nd.byz || e == nil || dead || down || e.m == nil {
+			continue
+		}
+		type snap struct {
+			v, c tmconsensus.VersionedRoundView
+			err  error
+		}
+		done := make(chan snap, 1)
+		ctx := nd.ctx
+		go func() {
+			var sn snap
+			if sn.err = e.m.VotingView(ctx, &sn.v); sn.err == nil {
+				sn.err = e.m.CommittingView(ctx, &sn.c)
+			}
+			done <- sn
+		}()
+		var sn snap
+		got := false
+		for i := 0; i < 400 && !got; i++ {
+			vsimcore.Wait()
+			select {
+			case sn = <-done:
+				got = true
+			default:
+				for _, n := range w.s.Parked() {
+					w.s.Release(n)
+				}
+			}
+		}
+		vsimcore.Wait()
+		if got && sn.err == nil {
+			// everything that was parked has run: the consumers have been served whatever was pending
+			for i := 0; i < 50; i++ {
+				vsimcore.Wait()
+				ps := w.s.Parked()
+				if len(ps) == 0 {
+					break
+				}
+				for _, n := range ps {
+					w.s.Release(n)
+				}
+			}
+			vsimcore.Wait()
+			w.orc.checkConsumersCurrent(nd, &sn.v, &sn.c)
+		}
+	}
 }
 
 func (w *vzWorld) shutdown() {
